@@ -47,6 +47,12 @@ def x_obligations(tier):
     return o
 
 
+def z_obligations(tier):
+    # the list search under every relation of this property is FindInList's glob -> regex translation: z3 equivalence with the reference glob language
+    n = 3 if tier == "quick" else 4
+    return [dict(name=f"C10-glob[len<={n}]", module="tplz3.c08z", func="glob", args={"maxlen": n}, timeout=1500, family="C10-glob")]
+
+
 META = {
     "functions": ["spil.sid.read.tools.unfold_search", "spil.sid.read.unfolders.or_op/extensions/expand/typed_narrow", "spil.sid.core.utils.expand", "spil.sid.core.query_helper.apply_query",
                   "spil.sid.read.finders.find_list.FindInList.star_search", "spil.sid.read.finder.Finder.find"],
